@@ -498,6 +498,16 @@ theorem Index.resolveClassRefAsMulticlass_keeps (a0 : _) : Keeps R (Index.resolv
   keeps
 macro_rules | `(tactic| keeps_prim) => `(tactic| (apply Index.resolveClassRefAsMulticlass_keeps <;> assumption))
 
+theorem Index.namesClassOnly_keeps (a0 : _) : Keeps R (Index.namesClassOnly a0) := by
+  unfold Index.namesClassOnly
+  keeps
+macro_rules | `(tactic| keeps_prim) => `(tactic| (apply Index.namesClassOnly_keeps <;> assumption))
+
+theorem Index.defmMulticlassParent_keeps (a0 a1 : _) : Keeps R (Index.defmMulticlassParent r a0 a1) := by
+  unfold Index.defmMulticlassParent
+  keeps
+macro_rules | `(tactic| keeps_prim) => `(tactic| (apply Index.defmMulticlassParent_keeps <;> assumption))
+
 theorem Index.indexParentClassList_keeps (a0 : _) : Keeps R (Index.indexParentClassList r a0) := by
   unfold Index.indexParentClassList
   keeps
